@@ -301,7 +301,7 @@ def anm_case(draw, p_max):
 
 def plan(tier, seed):
     jobs = []
-    n = scaled(2400 if tier == "quick" else 30000)
+    n = scaled(9600 if tier == "quick" else 120000)
     shards = 16 if tier == "quick" else 64
     for k in range(shards):
         jobs.append({"sub": "anm", "seed": seed, "shard": k, "n": max(1, n // shards), "p_max": 8, "cost": 10})
